@@ -1034,3 +1034,135 @@ func (c *FCtx) nameAll() {
 		}
 	}
 }
+
+// mutateName returns a near miss of a name: one character replaced, dropped or doubled.
+func mutateName(r *core.Rand, n string) string {
+	if len(n) < 2 {
+		return n + "x"
+	}
+	i := 1 + r.Intn(len(n)-1)
+	switch r.Intn(3) {
+	case 0:
+		return n[:i] + string("xtz"[r.Intn(3)]) + n[i+1:]
+	case 1:
+		return n[:i] + n[i+1:]
+	}
+	return n[:i] + n[i-1:i] + n[i:]
+}
+
+func init() {
+	// near-miss variants: typos that are equally close to several schema names, which is what makes
+	// "did you mean" lists order-sensitive
+	Faults = append(Faults,
+		Fault{"near-miss-type", "KnownTypeNames", func(c *FCtx) bool {
+			var names []string
+			for _, n := range c.Mg.TypeNames {
+				if t := c.Mg.Types[n]; t.IsComposite() && n[0] != '_' {
+					names = append(names, n)
+				}
+			}
+			if len(names) == 0 {
+				return false
+			}
+			typo := mutateName(c.R, names[c.R.Intn(len(names))])
+			if c.Mg.Types[typo] != nil {
+				return false
+			}
+			if fs := c.frags(); len(fs) > 0 && c.R.Bool() {
+				fs[c.R.Intn(len(fs))].TypeCond = typo
+				return true
+			}
+			s, ok := c.pick(c.sites(), func(s selSite) bool { return s.parent != nil && s.parent.IsComposite() })
+			if !ok {
+				return false
+			}
+			*s.list = append(*s.list, &m.Sel{Kind: m.SInline, TypeCond: typo, Sel: []*m.Sel{{Kind: m.SField, Name: "__typename"}}})
+			return true
+		}},
+		Fault{"near-miss-field", "FieldsOnCorrectType", func(c *FCtx) bool {
+			s, ok := c.pick(c.fieldSites(true), func(s selSite) bool { return s.parent != nil && s.parent.Kind != "union" })
+			if !ok {
+				return false
+			}
+			typo := mutateName(c.R, s.sel().Name)
+			if c.fieldDef(s.parent, typo) != nil {
+				return false
+			}
+			s.sel().Name = typo
+			s.sel().Args = nil
+			s.sel().Sel = nil
+			return true
+		}},
+		Fault{"near-miss-argument", "KnownArgumentNames", func(c *FCtx) bool {
+			s, ok := c.pick(c.fieldSites(true), func(s selSite) bool { return len(c.fieldDef(s.parent, s.sel().Name).Args) > 0 })
+			if !ok {
+				return false
+			}
+			fd := c.fieldDef(s.parent, s.sel().Name)
+			typo := mutateName(c.R, fd.Args[c.R.Intn(len(fd.Args))].Name)
+			for _, a := range fd.Args {
+				if a.Name == typo {
+					return false
+				}
+			}
+			s.sel().Args = append(s.sel().Args, m.Arg{Name: typo, Value: val(m.VNull, "null")})
+			return true
+		}},
+		Fault{"near-miss-enum-value", "ValuesOfCorrectType", func(c *FCtx) bool {
+			tv, ok := c.pickValue(func(tv typedValue, td *tsys.Def) bool { return td != nil && td.Kind == "enum" && namedLeaf(tv) && len(td.Values) > 0 })
+			if !ok {
+				return false
+			}
+			td := c.Mg.Types[tv.typ.Base()]
+			typo := mutateName(c.R, td.Values[c.R.Intn(len(td.Values))].Name)
+			for _, v := range td.Values {
+				if v.Name == typo {
+					return false
+				}
+			}
+			if typo == "true" || typo == "false" || typo == "null" {
+				return false
+			}
+			if c.R.Bool() {
+				tv.set(val(m.VString, typo))
+			} else {
+				tv.set(val(m.VEnum, typo))
+			}
+			return true
+		}},
+		Fault{"near-miss-input-field", "ValuesOfCorrectType", func(c *FCtx) bool {
+			tv, ok := c.pickValue(func(tv typedValue, td *tsys.Def) bool {
+				return td != nil && td.Kind == "input" && tv.val.Kind == m.VObject && !td.HasDir("oneOf") && len(td.Fields) > 0
+			})
+			if !ok {
+				return false
+			}
+			td := c.Mg.Types[tv.typ.Base()]
+			typo := mutateName(c.R, td.Fields[c.R.Intn(len(td.Fields))].Name)
+			if td.Field(typo) != nil {
+				return false
+			}
+			tv.val.Fields = append(tv.val.Fields, m.ObjField{Name: typo, Value: val(m.VNull, "null")})
+			return true
+		}},
+		Fault{"near-miss-variable-type", "KnownTypeNames", func(c *FCtx) bool {
+			for _, d := range c.ops() {
+				if len(d.Vars) > 0 {
+					v := &d.Vars[c.R.Intn(len(d.Vars))]
+					b := v.Type
+					for b.Elem != nil {
+						b = b.Elem
+					}
+					typo := mutateName(c.R, b.Name)
+					if c.Mg.Types[typo] != nil {
+						return false
+					}
+					b.Name = typo
+					v.Default = nil
+					return true
+				}
+			}
+			return false
+		}},
+	)
+}
